@@ -18,7 +18,7 @@ DEFAULT_HEADERS = ('glm/glm.hpp', 'glm/ext.hpp')
 class Cfg:
     """a build configuration: -D macros / -m flags / headers / callees to keep opaque"""
 
-    def __init__(self, name='default', defines=(), flags=(), headers=DEFAULT_HEADERS, noinline=(), std=None, prelude=''):
+    def __init__(self, name='default', defines=(), flags=(), headers=DEFAULT_HEADERS, noinline=(), std=None, prelude='', peel=0):
         self.name = name
         self.defines = tuple(defines)
         self.flags = tuple(flags)
@@ -26,9 +26,10 @@ class Cfg:
         self.noinline = tuple(noinline)
         self.std = std
         self.prelude = prelude
+        self.peel = peel           # peel this many iterations off every loop (irtool --peel); the interpreter then cuts the residual back edge
 
     def key(self):
-        return (self.name, self.defines, self.flags, self.headers, self.noinline, self.std, self.prelude)
+        return (self.name, self.defines, self.flags, self.headers, self.noinline, self.std, self.prelude, self.peel)
 
     def __hash__(self):
         return hash(self.key())
@@ -39,7 +40,7 @@ class Cfg:
     def with_(self, name=None, defines=(), flags=(), noinline=(), headers=None, prelude=None):
         return Cfg(name or self.name, self.defines + tuple(defines), self.flags + tuple(flags),
                    headers if headers is not None else self.headers, self.noinline + tuple(noinline), self.std,
-                   self.prelude if prelude is None else prelude)
+                   self.prelude if prelude is None else prelude, self.peel)
 
     def describe(self):
         return ' '.join(['-D' + d for d in self.defines] + list(self.flags)) or '(default)'
@@ -212,6 +213,8 @@ def build(kernels, workdir, tu_size=120, jobs=None, log=None):
         cmd = [IRTOOL, path + '.ll', path + '.jsonl']
         for r in cfg.noinline:
             cmd += ['--noinline', r]
+        if getattr(cfg, 'peel', 0):
+            cmd += ['--peel', str(cfg.peel)]
         p = subprocess.run(cmd, stdout=subprocess.PIPE, stderr=subprocess.PIPE, text=True)
         if p.returncode != 0:
             return cfg, ks, path, fails, 'irtool failed: ' + p.stderr[:2000]
